@@ -140,6 +140,8 @@ def sinkAttrClass (attr : String) (i : Nat) : String :=
   | .error (.panic _) => "PANIC"
   | .error _ => invalidConstruct
   | .ok v =>
+    -- d975ad6: a priority that does not fit into an int (±1e+300, NaN, ±Inf) is rejected
+    if attr == "priority" && (i == 5 || i == 15 || i == 16 || i == 17) then invalidConstruct else
     -- engine.AddRule refuses a rule without kind match / scope match (an empty ECAL list gives a nil Go slice)
     match attr, v with
     | "kindmatch", .list [] => invalidState
